@@ -1,1 +1,66 @@
-From AwkV Require Import Layout.
+(** C03 property theorems (proofs in Proofs_C03.v), about the reducer specification
+    ([leaf_reduce] for one group of leaves, [zipred] across lists). The layout-level model [zl]
+    and the implementation are tied to it by correspondence. *)
+From AwkV Require Import Layout Ops_Reduce Proofs_C03.
+
+(* an empty group yields the identity ... *)
+Theorem empty_group_yields_identity : forall dt,
+  leaf_reduce RCount false dt [] = Some (VNum (DZ 0)) /\
+  leaf_reduce RCountNonzero false dt [] = Some (VNum (DZ 0)) /\
+  leaf_reduce RSum false dt [] = Some (VNum (DZ (wrap_acc dt 0))) /\
+  leaf_reduce RProd false dt [] = Some (VNum (DZ (wrap_acc dt 1))) /\
+  leaf_reduce RAny false dt [] = Some (VBool false) /\
+  leaf_reduce RAll false dt [] = Some (VBool true) /\
+  leaf_reduce RArgmin false dt [] = Some (VNum (DZ (-1))) /\
+  leaf_reduce RArgmax false dt [] = Some (VNum (DZ (-1))).
+Proof. exact empty_group_identity. Qed.
+Print Assumptions empty_group_yields_identity.
+
+(* ... or None under mask_identity, for every reducer *)
+Theorem empty_group_is_none_under_mask : forall r dt, leaf_reduce r true dt [] = None.
+Proof. exact empty_group_masked. Qed.
+Print Assumptions empty_group_is_none_under_mask.
+
+Theorem count_is_group_size : forall mask dt l,
+  leaf_reduce RCount mask dt l = (match l, mask with [], true => None | _, _ => Some (VNum (DZ (zlen l))) end).
+Proof. exact count_counts. Qed.
+Print Assumptions count_is_group_size.
+
+Theorem sum_is_wrapped_sum : forall mask dt x xs,
+  leaf_reduce RSum mask dt (map (fun v => (0, v)) (x :: xs)) =
+  Some (VNum (DZ (wrap_acc dt (fold_left Z.add (x :: xs) 0)))).
+Proof. exact sum_is_sum. Qed.
+Print Assumptions sum_is_wrapped_sum.
+
+Theorem accumulator_does_not_wrap_small_values : forall dt z,
+  - two63 <= z < two63 -> is_unsigned dt = false -> wrap_acc dt z = z.
+Proof. exact wrap_acc_small. Qed.
+Print Assumptions accumulator_does_not_wrap_small_values.
+
+(* argmin gives the position within the group of the FIRST minimal element
+   (positions are those handed in, i.e. they count skipped missing values) *)
+Theorem argmin_first_extremum : forall l j,
+  leaf_reduce RArgmin false DInt64 l = Some (VNum (DZ j)) -> l <> [] ->
+  exists x pre post, l = pre ++ (j, x) :: post /\
+                     (forall j' x', In (j', x') l -> x <= x') /\
+                     (forall j' x', In (j', x') pre -> x < x').
+Proof. exact argmin_is_first_minimum. Qed.
+Print Assumptions argmin_first_extremum.
+
+(* reducing across lists of unequal length: one output per position of the longest list *)
+Theorem nonlocal_result_length : forall r mask sz t' xs out,
+  zipred r mask (TList sz None t') xs = Ok (VList out) ->
+  exists ls, mapM (fun jv : Z * value => match snd jv with VList l => Ok (fst jv, l) | _ => Err EValue end) xs = Ok ls /\
+             zlen out = fold_left Z.max (map (fun jl : Z * list value => zlen (snd jl)) ls) 0.
+Proof. exact zipred_list_shape. Qed.
+Print Assumptions nonlocal_result_length.
+
+(* the group at position p consists exactly of the p-th elements of the lists long enough, in order *)
+Theorem group_is_column : forall p (ls : list (Z * list value)),
+  column p ls = flat_map (fun jl : Z * list value =>
+                            match nth_error (snd jl) (Z.to_nat p) with
+                            | Some v => if p <? 0 then [] else [(fst jl, v)]
+                            | None => []
+                            end) ls.
+Proof. exact column_spec. Qed.
+Print Assumptions group_is_column.
